@@ -6,6 +6,7 @@ package rig
 import (
 	"errors"
 	"io"
+	"os"
 	"sync"
 	"sync/atomic"
 )
@@ -54,6 +55,9 @@ type TapEvent struct {
 // Pipe is a unidirectional byte stream. All blocking is on sync.Cond so that
 // blocked users show as "sync.Cond.Wait" in a goroutine dump.
 type Pipe struct {
+	// OSFileClose makes closing an end that is already closed an error (os.ErrClosed), as *os.File does - and
+	// os.Stdin / os.Stdout are what a plugin's server really runs on; io.Pipe never complains.
+	OSFileClose bool
 	Name string
 	mode Mode
 
@@ -207,18 +211,24 @@ func (p *Pipe) Read(b []byte) (int, error) {
 // CloseWrite ends the stream: readers get EOF after draining.
 func (p *Pipe) CloseWrite() error {
 	p.mu.Lock()
+	defer p.mu.Unlock()
+	if p.OSFileClose && p.wclosed {
+		return os.ErrClosed
+	}
 	p.wclosed = true
 	p.cond.Broadcast()
-	p.mu.Unlock()
 	return nil
 }
 
 // CloseRead makes pending and future reads and writes fail.
 func (p *Pipe) CloseRead() error {
 	p.mu.Lock()
+	defer p.mu.Unlock()
+	if p.OSFileClose && p.rclosed {
+		return os.ErrClosed
+	}
 	p.rclosed = true
 	p.cond.Broadcast()
-	p.mu.Unlock()
 	return nil
 }
 
